@@ -81,21 +81,7 @@ def classify(d, v, srcv):
     return 'export:' + p
 
 
-def canon_obs(o):
-    """two real observations: relation lists carry no order"""
-    import json
-    for kind in ('senses', 'synsets'):
-        for d in o[kind].values():
-            if isinstance(d, dict):
-                for f in ('related', 'related_synsets', 'frames'):
-                    if f in d:
-                        d[f] = sorted(d[f])
-                if 'relations' in d:
-                    d['relations'] = {k: sorted(v) for k, v in d['relations'].items()}
-                if 'relmap' in d:
-                    d['relmap'] = sorted(d['relmap'], key=lambda r: json.dumps(r, sort_keys=True, default=str))
-    o['ilis'] = sorted(o['ilis'], key=lambda r: json.dumps(r, default=str))
-    return o
+from vf.obscheck import canon_real as canon_obs  # noqa: E402
 
 
 def run_case(case, rec):
